@@ -507,6 +507,26 @@ def rule_levels(ctx, rep, rid):
             if c.callee in ("init_table_populate", "remove_table", "partition_resize_helper"):
                 ln = ir.expr(f, c.args[2], 6)
                 _check_shift(rep, rid, "%s.%s.len" % (name, c.callee), ln, lvl, -1, "level i is processed with len = 1 << (i - 1)", "level i is processed with len = %s: buckets beyond the level are written / part of it is left untouched", [c.where()])
+        # the level loop itself: grow walks first_order, first_order + 1, ..., last_order inclusive; shrink walks last_order down to
+        # first_order inclusive - a loop that stops one level short never reaches the resize target (the resize loop spins / destroy waits)
+        lp = [(ph, inits, steps, stays) for ph, inits, steps, stays in pat.counted_loops(f) if ("phi", ph.id) == lvl]
+        if lp:
+            ph, inits, steps, stays = lp[0]
+            start = [ir.expr(f, v, 3) for v, blk in ph.d["inc"] if not f.bdom(ph.blk.id, blk)]
+            want_start, want_step, want_ops, other = (("arg", 1), 1, ("ule", "sle"), ("arg", 2)) if name == "init_table" else (("arg", 2), -1, ("uge", "sge"), ("arg", 1))
+            rep.check(start == [want_start], rid, name + ".loop.start", "the level loop starts at %s" % ("first_order" if name == "init_table" else "last_order"), "the level loop starts at %s" % [ir.expr_str(x) for x in start], [f.name])
+            okstep = bool(steps) and all(e[0] == "bin" and e[1] == "add" and e[3] == ("c", want_step) and e[2] == ("phi", ph.id) for e in steps)
+            rep.check(okstep, rid, name + ".loop.step", "one level per iteration (%+d)" % want_step, "the level advances by %s" % [ir.expr_str(e) for e in steps], [f.name])
+            for a, t in stays:
+                if a[1] == ("phi", ph.id) and a[2] == other:
+                    strict = {"ule": "ult", "sle": "slt", "uge": "ugt", "sge": "sgt"}
+                    if a[0] in want_ops:
+                        rep.ok(rid, name + ".loop.bound", "the level loop includes %s" % ("last_order" if name == "init_table" else "first_order"))
+                    elif a[0] in strict.values():
+                        rep.bad(rid, name + ".loop.bound", "the level loop stops one level short (%s): the %s level is never %s, the table size never reaches resize_target - _do_cds_lfht_resize() keeps looping"
+                                % (ir.atom_str(a), "last" if name == "init_table" else "first", "created" if name == "init_table" else "removed"), [t.where()])
+                    else:
+                        rep.unk(rid, name + ".loop.bound", "level loop bound %s not recognised" % ir.atom_str(a))
         szs = [s for s in pat.stores(f, "cds_lfht.size")]
         pat.require(szs and lvl is not None, name + ": size store")
         for s in szs:
